@@ -353,3 +353,95 @@ End Eval.
 Arguments OAccept {facts}.
 Arguments OReject {facts}.
 Arguments OFail {facts}.
+
+(** * The same algorithm with tabulated max_cut / jump (used by the
+    correspondence run only: [max_cut] and [jump] recompute along every path
+    of nested merges; [braid_fast] is proved equal to [braid_L1] in
+    proofs/BraidFast.v). *)
+
+Fixpoint tlookN (t : list (N * N)) (i : N) : N :=
+  match t with [] => 0%N | (k, v) :: r => if (k =? i)%N then v else tlookN r i end.
+Fixpoint tlookO (t : list (N * option N)) (i : N) : option N :=
+  match t with [] => None | (k, v) :: r => if (k =? i)%N then v else tlookO r i end.
+
+(** max_cut table and jump table of a graph, newest first like the graph. *)
+Fixpoint tabs (g : graph) : list (N * N) * list (N * option N) :=
+  match g with
+  | [] => ([], [])
+  | c :: r =>
+    let '(mt, jt) := tabs r in
+    let m := match cpar c with
+             | PNone => 0%N
+             | PSingle p => (tlookN mt p + 1)%N
+             | PMerge2 a b => (N.max (tlookN mt a) (tlookN mt b) + 1)%N
+             end in
+    let j := match cpar c with
+             | PNone => None
+             | PSingle p => Some p
+             | PMerge2 a b => lca_loop (tlookO jt) (tlookN mt) (S (length r + length r)) a b
+             end in
+    ((cid c, m) :: mt, (cid c, j) :: jt)
+  end.
+
+Definition visit_mc (mc : N -> N) (g : graph) (L : N) (s : bst) (x : N) : option bst :=
+  if (mc x <=? L)%N then Some s else
+  let '(m', go) := conv_query (conv s) x in
+  let s' := {| heap := heap s; hasfin := hasfin s; conv := m'; out := out s |} in
+  if negb go then Some s' else push_strand g s' x.
+
+Fixpoint visit_all_mc (mc : N -> N) (g : graph) (L : N) (s : bst) (xs : list N) : option bst :=
+  match xs with
+  | [] => Some s
+  | x :: r => match visit_mc mc g L s x with None => None | Some s' => visit_all_mc mc g L s' r end
+  end.
+
+Fixpoint braid_loop_mc (mc : N -> N) (g : graph) (L : N) (fuel : nat) (s : bst) : bres :=
+  match fuel with
+  | O => BBug
+  | S f =>
+    match pop_min (heap s) with
+    | None => finish (out s)
+    | Some (k, h') =>
+      let x := snd k in
+      let hf := if kfin k then false else hasfin s in
+      let o := if is_merge_id g x then out s else x :: out s in
+      match visit_all_mc mc g L {| heap := h'; hasfin := hf; conv := conv s; out := o |} (parents_of g x) with
+      | None => BParFin
+      | Some s' =>
+        match heap s' with
+        | [b] => finish (snd b :: out s')
+        | _ => braid_loop_mc mc g L f s'
+        end
+      end
+    end
+  end.
+
+Definition conv_init_mc (mc : N -> N) (g : graph) (L : N) (hs : list N) : list (N * N) :=
+  let a := arrivals g mc L hs in
+  filter (fun e => (2 <=? snd e)%N)
+    (map (fun x => (x, countN x a)) (filter (fun x => (L <? mc x)%N) (ids g))).
+
+Definition braid_fast (g : graph) (hs : list N) : bres :=
+  let '(mt, jt) := tabs g in
+  let mc := tlookN mt in
+  let lca := match hs with
+             | [] => None
+             | h :: t => fold_left (fun acc x => match acc with
+                                                 | Some l => lca_loop (tlookO jt) mc (S (length g + length g)) l x
+                                                 | None => None end) t (Some h)
+             end in
+  match lca with
+  | None => BBug
+  | Some lca =>
+    let L := mc lca in
+    let s0 := {| heap := []; hasfin := false; conv := conv_init_mc mc g L hs; out := [] |} in
+    match visit_all_mc mc g L s0 hs with
+    | None => BParFin
+    | Some s1 =>
+      match heap s1 with
+      | [] => BOk lca []
+      | [b] => BOk (snd b) []
+      | _ => braid_loop_mc mc g L (S (length g)) s1
+      end
+    end
+  end.
